@@ -35,6 +35,8 @@ CLAIMS = {
                 note=_NOTE, technique="symbolic execution (CrossHair+z3) of pairs of real searches related by the rewrite rules (metamorphic relations, inputs symbolic)"),
     "C12": dict(text=_X + ". Finder.find/find_one/exists laws over a do_find stub yielding arbitrary symbolic strings; Sid.exists/children/siblings/leaf rule over a symbolic universe behind FindInAll (type-aware list source).",
                 note=_NOTE, technique="symbolic execution of Finder.find_one/exists and DataSid.exists/children/siblings (CrossHair+z3) over stubbed sources with symbolic content"),
+    "C11": dict(text=_X + ". The real FindInPaths (local and server) and FindInAll run against a model of the file system (glob.glob answered from an explicit universe built through the real path(c) from Sids with a symbolic name character, plus concrete and symbolic junk paths) and are compared with the search's denotation over the same entities.",
+                note=_NOTE + "; the operating system is a stated model (xhair/globstub.py)", technique="symbolic execution of FindInPaths.star_search_simple/FindInAll.find/FindInConstants (CrossHair+z3) over a glob stub with symbolic universe"),
 }
 
 NOT_APPLICABLE = {}
